@@ -24,9 +24,81 @@ use workload::*;
 mod marker;
 
 static SAMPLE_IX: core::sync::atomic::AtomicU64 = core::sync::atomic::AtomicU64::new(0);
+/// pages of our own foreign mappings (taken out of VmSize)
+static FOREIGN_PAGES: core::sync::atomic::AtomicU64 = core::sync::atomic::AtomicU64::new(0);
+/// most anonymous read-write VMAs seen in /proc/self/maps (non-adjacent heap pieces + constant)
+static MAX_RW_VMAS: core::sync::atomic::AtomicU64 = core::sync::atomic::AtomicU64::new(0);
+fn held_pages() -> u64 {
+    vmsize_pages().saturating_sub(FOREIGN_PAGES.load(core::sync::atomic::Ordering::Relaxed))
+}
 fn print_sample(failed: usize) {
     let ix = SAMPLE_IX.fetch_add(1, core::sync::atomic::Ordering::Relaxed);
-    tiny_std::println!("R {} {} {}", ix, vmsize_pages(), failed);
+    tiny_std::println!("R {} {} {}", ix, held_pages(), failed);
+}
+
+struct RawOs;
+impl Os for RawOs {
+    unsafe fn map(&mut self, len: usize) -> usize {
+        use rusl::platform::{MapAdditionalFlags, MapRequiredFlag, MemoryProtection};
+        rusl::unistd::mmap(
+            None,
+            core::num::NonZeroUsize::new_unchecked(len),
+            MemoryProtection::PROT_NONE,
+            MapRequiredFlag::MapPrivate,
+            MapAdditionalFlags::MAP_ANONYMOUS | MapAdditionalFlags::MAP_NORESERVE,
+            None,
+            0,
+        )
+        .unwrap_or(0)
+    }
+    unsafe fn unmap(&mut self, addr: usize, len: usize) {
+        let _ = rusl::unistd::munmap(addr, core::num::NonZeroUsize::new_unchecked(len));
+    }
+}
+fn foreign_before(f: &mut Foreign, r: &mut Prng) {
+    unsafe { f.before(&mut RawOs, r) };
+    FOREIGN_PAGES.store((f.bytes / 4096) as u64, core::sync::atomic::Ordering::Relaxed);
+}
+fn foreign_after(f: &mut Foreign) {
+    unsafe { f.after(&mut RawOs) };
+    FOREIGN_PAGES.store((f.bytes / 4096) as u64, core::sync::atomic::Ordering::Relaxed);
+}
+fn foreign_arg(a: Option<&'static str>) -> Foreign {
+    a.and_then(|s| s.strip_prefix("foreign=")).and_then(Foreign::by_name).unwrap_or_else(|| Foreign::new(0))
+}
+
+/// counts the anonymous private read-write mappings in /proc/self/maps (stack buffer only) and keeps the maximum
+fn note_rw_vmas() {
+    let Ok(fd) = rusl::unistd::open(unix_lit!("/proc/self/maps"), OpenFlags::O_RDONLY) else {
+        return;
+    };
+    let mut buf = [0u8; 4096];
+    let mut line = [0u8; 160];
+    let mut ll = 0usize;
+    let mut count = 0u64;
+    loop {
+        let n = rusl::unistd::read(fd, &mut buf).unwrap_or(0);
+        if n == 0 {
+            break;
+        }
+        for &c in &buf[..n] {
+            if c == b'\n' {
+                let mut l = &line[..ll];
+                while let [rest @ .., b' '] = l {
+                    l = rest;
+                }
+                if l.ends_with(b" 00:00 0") && l.windows(6).any(|w| w == b" rw-p ") {
+                    count += 1;
+                }
+                ll = 0;
+            } else if ll < line.len() {
+                line[ll] = c;
+                ll += 1;
+            }
+        }
+    }
+    let _ = rusl::unistd::close(fd);
+    MAX_RW_VMAS.fetch_max(count, core::sync::atomic::Ordering::Relaxed);
 }
 
 fn steady_main(baseline: u64, args: &mut dyn Iterator<Item = &'static str>) -> i32 {
@@ -41,6 +113,8 @@ fn steady_main(baseline: u64, args: &mut dyn Iterator<Item = &'static str>) -> i
     let reps = parse(args.next()).max(1);
     let seed = parse(args.next());
     let align = (parse(args.next()) as usize).max(8);
+    let mut foreign = foreign_arg(args.next());
+    let mut fr = Prng::new(seed ^ 0xF0E1);
     let (Some(policy), Some(primer)) = (policy, primer) else {
         tiny_std::println!("E bad arguments");
         return 2;
@@ -59,7 +133,15 @@ fn steady_main(baseline: u64, args: &mut dyn Iterator<Item = &'static str>) -> i
             let mut g = Global;
             let mut slots: Vec<Slot> = Vec::with_capacity(p.live);
             let mut extra: Vec<Slot> = Vec::with_capacity(STEADY_PRIMER_TRIES + 2);
-            unsafe { steady_rep(&mut g, &p, seed ^ rep, &mut slots, &mut extra, &mut st, &mut |_| print_sample(0)) };
+            // a foreign mapping at every sample point inside the steady phase
+            unsafe {
+                steady_rep(&mut g, &p, seed ^ rep, &mut slots, &mut extra, &mut st, &mut |_| {
+                    foreign_before(&mut foreign, &mut fr);
+                    print_sample(0)
+                })
+            };
+            note_rw_vmas();
+            foreign_after(&mut foreign);
         } else {
             let mut handles = Vec::with_capacity(threads);
             for t in 0..threads {
@@ -104,7 +186,15 @@ fn steady_main(baseline: u64, args: &mut dyn Iterator<Item = &'static str>) -> i
         print_sample(st.failed);
     }
     marker::end(4, 1, 0, 0, 0);
-    tiny_std::println!("S {} {} {} {}", total.peak_live, total.churned, total.calls, total.primed);
+    tiny_std::println!(
+        "S {} {} {} {} {} {}",
+        total.peak_live,
+        total.churned,
+        total.calls,
+        total.primed,
+        MAX_RW_VMAS.load(core::sync::atomic::Ordering::Relaxed),
+        foreign.mapped
+    );
     0
 }
 
@@ -253,7 +343,10 @@ pub fn main() -> i32 {
     let threads = parse(args.next()).max(1) as usize;
     let reps = parse(args.next()).max(1);
     let seed = parse(args.next());
-    let handoff = args.next() == Some("handoff");
+    let mode = args.next();
+    let handoff = mode == Some("handoff");
+    let mut foreign = foreign_arg(if mode.map_or(false, |m| m.starts_with("foreign=")) { mode } else { args.next() });
+    let mut fr = Prng::new(seed ^ 0xF0E1);
     let (Some(shape), Some(order)) = (shape_by_name(shape_s), order_by_name(order_s)) else {
         tiny_std::println!("E bad arguments");
         return 2;
@@ -265,6 +358,8 @@ pub fn main() -> i32 {
     for rep in 0..reps {
         let mut st = RepStats::default();
         let order_seed = seed ^ rep.wrapping_mul(0x9E37_79B9);
+        // something else maps memory where the heap would have grown contiguously
+        foreign_before(&mut foreign, &mut fr);
         if shape == Shape::VecShrink {
             // the kept vectors are handed to main, so that the sample is taken with all of them alive and all threads joined
             let mut kept: Vec<Vec<Vec<u8>>> = Vec::with_capacity(threads);
@@ -375,14 +470,28 @@ pub fn main() -> i32 {
                 rep_free(&mut g, order, order_seed, &mut all, &mut st);
             }
         }
+        // quiescent: every block of this repetition is freed, every thread joined
+        if foreign.policy != 0 {
+            if rep < 8 || rep % 16 == 0 {
+                note_rw_vmas();
+            }
+            unsafe { rep_flush(&mut g, &mut st) };
+        }
         total.peak_live = total.peak_live.max(st.peak_live);
         total.churned += st.churned;
         total.calls += st.calls;
         total.failed += st.failed;
-        // quiescent: every block of this repetition is freed, every thread joined
-        tiny_std::println!("R {} {} {}", rep, vmsize_pages(), st.failed);
+        foreign_after(&mut foreign);
+        tiny_std::println!("R {} {} {}", rep, held_pages(), st.failed);
     }
     marker::end(4, 0, 0, 0, 0);
-    tiny_std::println!("S {} {} {}", total.peak_live, total.churned, total.calls);
+    tiny_std::println!(
+        "S {} {} {} 0 {} {}",
+        total.peak_live,
+        total.churned,
+        total.calls,
+        MAX_RW_VMAS.load(core::sync::atomic::Ordering::Relaxed),
+        foreign.mapped
+    );
     0
 }
